@@ -36,6 +36,20 @@ func init() {
 			"terminfo capability naming (kLFT = shifted left, ...) as encoded in keyCapSpec"},
 	})
 	reg(&PropDef{
+		ID:     "C07",
+		Level:  "proof",
+		Custom: []func(*PropRun){c07Programs},
+		Trusted: []string{"terminfo(5) 'Parameterized Strings' as transcribed in govc/ref_terminfo.go (the oracle)",
+			"fmt.Sprintf / strconv.Itoa renderings are opaque pieces compared by their arguments"},
+		Bounded: []string{"arbitrary well-formed programs: only the fixed grammar corpus in govc/c07.go is evaluated (bounded stand-in, not a proof of the general clause)"},
+	})
+	reg(&PropDef{
+		ID:     "C15",
+		Level:  "proof",
+		Custom: []func(*PropRun){c15Tables},
+		Trusted: []string{"terminfo(5) 'Parameterized Strings' as transcribed in govc/ref_terminfo.go; cup takes (row, column)"},
+	})
+	reg(&PropDef{
 		ID:    "C08",
 		Level: "proof",
 		Funcs: []string{"tcell.(*CellBuffer).Size", "tcell.(*CellBuffer).GetContent", "tcell.(*CellBuffer).Dirty", "tcell.(*CellBuffer).SetDirty",
